@@ -96,6 +96,13 @@ class C13(vlib.Check):
         yield 'format_double_s 0 70 f 0 d 0 0x3fd5555555555555'
         yield 'format_double 0 70 f 0 d 0 0x3fd5555555555555'
         yield 'stream_double 0x%016x' % DBL_MAX
+        # insertion into a stream with every remaining capacity 0..16 below the in-object capacity and the next two
+        # doublings, for the longest %g renderings (13 characters) and a short one
+        for cap in (256, 512, 1024):
+            for rem in range(0, 17):
+                for v in (DBL_MAX | (1 << 63), 0x8010000000000000, 0x8000000000000001, 0x4014000000000000):
+                    yield 'stream_double 0x%016x %d' % (v, cap - rem)
+                yield 'stream_float 0x%08x %d' % (0xff7fffff, cap - rem)
         for L in LETTERS:
             yield 'from_double 0x%016x %d' % (DBL_MAX, L)
             yield 'from_double 0x%016x %d' % (DBL_MAX | (1 << 63), L)
